@@ -391,6 +391,8 @@ def run_smt_roundtrip(ctx, n):
             g = res[1]
             if (g is not f) if not has_av else (not match_unfolded(f, g)):
                 shape, a, b = classify_smt(f, g)
+                if _has_int_const_div(f):
+                    shape = "int-div-of-constants"
                 ctx.report_s({"oracle": "roundtrip", "printer": pname, "kind": "different-object", "shape": shape},
                              "parse(print(f)) is not f: sub-term %s came back as %s" % (semantic.readable(a, 120),
                                                                                      semantic.readable(b, 120)),
@@ -689,6 +691,10 @@ def run_script_roundtrip(ctx, n):
                   "names": "+".join(sorted(set(names.kinds.values())))}
             if _cmds_have_int_const_div(cmds):
                 sg["shape"] = "int-div-of-constants"
+            elif any(n.startswith(":") for n in names.used) and any(c.name in (smtcmd.MINMAX, smtcmd.MAXMIN, smtcmd.MAXIMIZE,
+                                                                               smtcmd.MINIMIZE, smtcmd.ASSERT_SOFT)
+                                                                    for c in cmds):
+                sg["shape"] = "symbol-spelling-a-keyword"
             ctx.report_s(sg,
                          "the serialisation of a constructed script is not parsed: %s %s" % (r1[1], r1[2]), rep)
             continue
@@ -725,6 +731,65 @@ def run_script_roundtrip(ctx, n):
                 break
         for c in cmds:
             ctx.count("cmd_" + c.name)
+
+
+SERIALISABLE = {smtcmd.SET_OPTION, smtcmd.SET_INFO, smtcmd.ASSERT, smtcmd.ASSERT_SOFT, smtcmd.GET_VALUE, smtcmd.MAXIMIZE,
+                smtcmd.MINIMIZE, smtcmd.MINMAX, smtcmd.MAXMIN, smtcmd.CHECK_ALLSAT, smtcmd.CHECK_SAT, smtcmd.EXIT,
+                smtcmd.RESET_ASSERTIONS, smtcmd.GET_UNSAT_CORE, smtcmd.GET_ASSIGNMENT, smtcmd.GET_MODEL,
+                smtcmd.GET_OBJECTIVES, smtcmd.SET_LOGIC, smtcmd.DECLARE_FUN, smtcmd.DECLARE_CONST, smtcmd.DEFINE_FUN,
+                smtcmd.PUSH, smtcmd.POP, smtcmd.LOAD_OBJECTIVE_MODEL, smtcmd.DEFINE_SORT, smtcmd.DECLARE_SORT}
+
+
+def run_text_script_roundtrip(ctx, n):
+    """parsed scripts obtained from independently written text (the generator of C08: quoted names, annotations,
+    definitions with parameters, let, define-sort, push/pop): re-serialise, re-parse, compare"""
+    from props import c08 as c08mod
+    quick = ctx.tier == "quick"
+    for i in range(n):
+        if ctx.time_left() < (55 if quick else 220):
+            break
+        try:
+            g = c08mod.gen_script(ctx.rng)
+        except RuntimeError:
+            continue
+        text0 = c08mod.render_script(ctx.rng, [c[0] for c in g.cmds], fancy=False)
+        env = Environment()
+        r1 = parse_script(env, text0)
+        if r1[0] == "err":
+            ctx.count("text_scripts_rejected")
+            continue
+        s1 = r1[1]
+        if any(c.name not in SERIALISABLE for c in s1.commands):
+            ctx.count("text_scripts_not_serialisable")
+            continue
+        ctx.case(("text-script", text0))
+        ctx.count("text_scripts")
+        daggify = ctx.rng.random() < 0.5
+        rep = {"daggify": daggify, "text0": text0}
+        shape = "int-div-of-constants" if _cmds_have_int_const_div(s1.commands) else "other"
+        try:
+            text1 = serialize_script(s1.commands, daggify, annotations=s1.annotations)
+        except Exception as e:
+            ctx.report_s({"oracle": "script-roundtrip", "kind": "serialize-error", "error": type(e).__name__, "stage": "parsed-text"},
+                         "re-serialising a parsed script raised %r" % (e,), rep)
+            continue
+        rep["text1"] = text1
+        r2 = parse_script(env, text1)
+        if r2[0] == "err":
+            ctx.report_s({"oracle": "script-roundtrip", "kind": "parse-error", "error": r2[1], "stage": "parsed-text", "shape": shape},
+                         "the re-serialisation of a parsed script is not parsed: %s %s" % (r2[1], r2[2]), rep)
+            continue
+        a, b = s1.commands, r2[1].commands
+        if len(a) != len(b):
+            ctx.report_s({"oracle": "script-roundtrip", "kind": "command-count", "stage": "parsed-text"},
+                         "%d commands became %d" % (len(a), len(b)), rep)
+            continue
+        for x, y in zip(a, b):
+            d = compare_commands(env, x, y)
+            if d:
+                ctx.report_s({"oracle": "script-roundtrip", "kind": "command-differs", "stage": "parsed-text", "command": x.name,
+                              "shape": _script_shape(d)}, d, rep)
+                break
 
 
 def _script_shape(desc):
@@ -1003,7 +1068,7 @@ def run_witnesses(ctx):
         elif res[1] is not f:
             ctx.report_s({"oracle": "roundtrip", "printer": pname, "kind": "different-object", "shape": "int-div-of-constants"},
                          "parse(print(f)) is not f", rep)
-    # F39: symbols named ( or ) ; F16b: a symbol spelling a literal
+    # P03: symbols named ( or ) ; F16b: a symbol spelling a literal
     for nm, shape, mk in ((")", "symbol-named-paren", lambda m, s: m.Not(s)),
                           ("(", "symbol-named-paren", lambda m, s: m.Not(s)),
                           ("5", "symbol-spelling-a-literal", None)):
@@ -1026,7 +1091,7 @@ def run_witnesses(ctx):
         elif res[1] is not f:
             ctx.report_s({"oracle": "roundtrip", "printer": "tree", "kind": "different-object", "shape": shape},
                          "parse(print(f)) is not f: %s" % semantic.readable(res[1]), rep)
-    # F43: the default weight of assert-soft is the Int 1; under a logic without Ints the numeral 1 is read as a Real
+    # P07: the default weight of assert-soft is the Int 1; under a logic without Ints the numeral 1 is read as a Real
     env = Environment()
     t0 = "(set-logic QF_BV)(declare-fun p () Bool)(assert-soft p)"
     r1 = parse_script(env, t0)
@@ -1067,6 +1132,7 @@ def run(ctx):
     run_witnesses(ctx)
     run_smt_roundtrip(ctx, 900 if quick else 15000)
     run_script_roundtrip(ctx, 150 if quick else 2500)
+    run_text_script_roundtrip(ctx, 250 if quick else 4000)
     run_hr_roundtrip(ctx, 900 if quick else 15000, lines, meta)
     finish_sem(ctx, lines, meta)
     run_model(ctx)
